@@ -43,7 +43,16 @@ func (d *Disk) ReplayPrefix(k int) *Disk {
 		k = len(log)
 	}
 	d.mu.Unlock()
-	nd := New(d.Name+"@"+fmt.Sprint(k), 0)
+	var nd *Disk
+	if d.base != nil {
+		// d started life as a crash image: replay on top of its initial state
+		// (which has no unsynced data, so this copy is exact).
+		nd = d.base.CrashImage(Survival{Mode: "none"})
+		nd.base = nil
+		nd.Name = d.Name + "@" + fmt.Sprint(k)
+	} else {
+		nd = New(d.Name+"@"+fmt.Sprint(k), 0)
+	}
 	nd.logging = false
 	for i := 0; i < k; i++ {
 		nd.applyOp(&log[i])
@@ -236,6 +245,11 @@ func (d *Disk) CrashImage(spec Survival) *Disk {
 	defer d.mu.Unlock()
 	b := d.builder(spec)
 	b.dst.root = b.cloneNode("", d.root)
+	// Keep a frozen copy of the image's initial state so that its own
+	// mutation log can be replayed later (crash forks of a recovered DB).
+	b2 := b.dst.builder(Survival{Mode: "none"})
+	b2.dst.root = b2.cloneNode("", b.dst.root)
+	b.dst.base = b2.dst
 	return b.dst
 }
 
@@ -269,4 +283,17 @@ func (d *Disk) ImageAt(k int, spec Survival) *Disk {
 // Clone returns an exact copy of the live and durable state (no crash).
 func (d *Disk) Clone() *Disk {
 	return d.ReplayPrefix(d.LogLen())
+}
+
+// ApplyLogged applies mutation i of src's log to d (a replay cursor of src).
+func (d *Disk) ApplyLogged(src *Disk, i int) {
+	src.mu.Lock()
+	op := &src.log[i]
+	src.mu.Unlock()
+	d.mu.Lock()
+	defer d.mu.Unlock()
+	was := d.logging
+	d.logging = false
+	d.applyOp(op)
+	d.logging = was
 }
